@@ -1,7 +1,7 @@
 (** C14 - resize pre-flight: short files zero-extended; any over-long file aborts first.  Statements only.
     The pre-flight is evaluated against an arbitrary answer function [ans] for the probes. *)
 From TB Require Import Base Decimal BencodeModel TorrentModel TorrentProofs PathModel FsModel SolverModel FinderModel RunModel
-                       SolverProofs RunProofs FsProofs FaultProofs PreludeProofs TableProofs Generated GeneratedObligations.
+                       SolverProofs RunProofs FsProofs FaultProofs PreludeProofs TableProofs Generated GeneratedObligations SystemModel SystemProofs GlueProofs.
 Local Open Scope N_scope.
 
 (** If any existing non-padding export file is longer than declared - wherever it sits in the list -
@@ -32,8 +32,27 @@ Proof. exact (noresize_prelude_no_ops ans mutok scans export es k). Qed.
 Theorem C14_open_modes : w1 = false /\ w2 = true /\ of_create resize_fix_open = false /\ of_truncate resize_fix_open = false.
 Proof. repeat split; reflexivity. Qed.
 
+(** WHOLE START.  Whatever the probes of the prelude answer and whichever of its operations fail,
+    the operations that reach the file system are [set_len target declared] on export images;
+    hence the whole-run invariant, stated relative to the file system as it was BEFORE the run
+    (existing bytes kept, zeros appended, nothing else touched), holds when scanning starts and in
+    every reachable state of the scanning phase that follows. *)
+Theorem C14_whole_start_safe H content export ts ix es ws fi ans mutok scans uexport rz applied pool0 s :
+  run_setup H content export ts ix es ws fi pool0 ->
+  incl applied (fst (run_prelude ans mutok (prelude_prog scans uexport rz (metadata_table export ts 0) (fun _ => Ret Success)))) ->
+  sreach {| s_fs := apply_ops fi applied; s_pool := pool0 |} s ->
+  SI content es fi (s_fs s) /\ Forall (pgood content es) (s_pool s).
+Proof. exact (whole_start_safe H content export ts ix es ws fi ans mutok scans uexport rz applied pool0 s). Qed.
+
+Theorem C14_prelude_only_sets_declared_lengths ans mutok scans export rz es k o : (forall a, fst (run_prelude ans mutok (k a)) = []) ->
+  In o (fst (run_prelude ans mutok (prelude_prog scans export rz es k))) ->
+  exists e, In e es /\ e_pad e = false /\ o = SetLen (e_target e) (e_len e).
+Proof. exact (prelude_ops_shape ans mutok scans export rz es k o). Qed.
+
 Print Assumptions C14_overlong_aborts_before_any_change.
 Print Assumptions C14_extends_exactly_the_shorter_files.
 Print Assumptions C14_extension_keeps_bytes.
 Print Assumptions C14_no_flag_no_prelude_change.
 Print Assumptions C14_open_modes.
+Print Assumptions C14_whole_start_safe.
+Print Assumptions C14_prelude_only_sets_declared_lengths.
